@@ -1,7 +1,7 @@
 (* C20 — Bit sets and fixed arrays behave like their mathematical models. Theorems only. *)
 From Coq Require Import List NArith Arith Bool.
 From Coq Require Import ZArith.
-From FFSM2 Require Import Model.BitArray Model.Arrays Proofs.BitArrayProofs Proofs.ArraysProofs Model.Cxx Generated.LeafCode Proofs.LeafTactics Proofs.LeafConsts Proofs.LeafLoops Proofs.LeafCodeProofs Proofs.LeafCodeArrays.
+From FFSM2 Require Import Model.BitArray Model.Arrays Proofs.BitArrayProofs Proofs.ArraysProofs Model.Cxx Generated.LeafCode Proofs.LeafTactics Proofs.LeafConsts Proofs.LeafLoops Proofs.LeafCodeProofs Proofs.LeafCodeArrays Proofs.LeafCodeStatic.
 Import ListNotations.
 
 Section BitSet.
@@ -388,6 +388,25 @@ Theorem C20_source_BitArray_wide_and_assign_is_the_model :
          Some (None, [], ba2_obj (ba_and_assign b o) o).
 Proof. exact src_BitArray16_and_assign. Qed.
 Print Assumptions C20_source_BitArray_wide_and_assign_is_the_model.
+(* the fixed array whose filler is not T{}: StaticArrayT<uint8_t, N>::fill / clear / empty as translated from /repo's current array.inl (clear() is the member
+   call fill(filler<Item>()) inlined, filler<uint8_t>() followed into its specialisation INVALID_SHORT = 255): on arbitrary contents and every capacity up to
+   255 they never index outside _items and compute the model's sa_fill / sa_clear with filler 255 / "every item is the filler" *)
+Theorem C20_source_StaticArray_fill_is_the_model : forall (cap : Z) (a : list N) (x : N),
+  1 <= cap <= 255 -> Z.of_nat (length a) = cap -> (x < 256)%N ->
+  result (run leaf_ftable (sa_consts cap) StaticArrayT_u8_5__fill [Z.of_N x] [] (sa_obj a)) = Some (None, [], sa_obj (sa_fill N a x)).
+Proof. exact src_StaticArray_fill. Qed.
+Print Assumptions C20_source_StaticArray_fill_is_the_model.
+Theorem C20_source_StaticArray_clear_is_the_model : forall (cap : Z) (a : list N),
+  1 <= cap <= 255 -> Z.of_nat (length a) = cap ->
+  result (run leaf_ftable (sa_consts cap) StaticArrayT_u8_5__clear [] [] (sa_obj a)) = Some (None, [], sa_obj (sa_clear N 255%N a)).
+Proof. exact src_StaticArray_clear. Qed.
+Print Assumptions C20_source_StaticArray_clear_is_the_model.
+Theorem C20_source_StaticArray_empty_is_the_model : forall (cap : Z) (a : list N),
+  1 <= cap <= 255 -> Z.of_nat (length a) = cap -> Forall (fun x => (x < 256)%N) a ->
+  result (run leaf_ftable (sa_consts cap) StaticArrayT_u8_5__empty [] [] (sa_obj a))
+  = Some (Some (b2z (forallb (fun x => (x =? 255)%N) a)), [], sa_obj a).
+Proof. exact src_StaticArray_empty. Qed.
+Print Assumptions C20_source_StaticArray_empty_is_the_model.
 End SourceTie.
 
 (* non-vacuity: capacity 12, set-all then clear every index: empty (the history that failed before the repair) *)
